@@ -997,6 +997,10 @@ def show(t, depth=4):
     if t.op == "overlay":
         n = (len(t.args) - 1) // 2
         return "%s{%d const stores}" % (show(t.args[0], depth - 1), n)
+    if t.op == "arrlit" and len(t.args) > 6:
+        return "arrlit[%d](%s, %s, ...)" % (len(t.args), show(t.args[0], depth - 1), show(t.args[1], depth - 1))
+    if t.op == "and1" and len(t.args) > 6:
+        return "and1[%d](%s, %s, ...)" % (len(t.args), show(t.args[0], depth - 1), show(t.args[1], depth - 1))
     if t.op == "call":
         nm = str(t.aux).split("::")[-1] if "<" not in str(t.aux).split("::")[-1] else str(t.aux)[-40:]
         return "call:%s(%s)" % (nm, ", ".join(show(a, depth - 2) for a in t.args[:4]) + (", ..." if len(t.args) > 4 else ""))
